@@ -43,6 +43,7 @@ NONEMPTY_POOLS = {
     "LABELS": ("0.000=Song Start", " "),
 }
 CHART_OFFSET = "0.222"
+EDIT_VERSIONS = ("0.69", "0.83", None, "1.0", "0.5")  # in-place edits of the version between two readings
 
 
 def events(s):
@@ -178,6 +179,26 @@ def check_source(sfkind, version, chartkind, vector, seed, empty_value=""):
         third = f"{type(e).__name__}: {e}"
     if third != got:
         return [{"clause": "editing one TimingData's lists in place changes a TimingData built afterwards from the same source", "expected": got, "observed": third}], from_chart
+    if sfkind == "ssc" and chartkind == "ssc" and got == want:
+        # the rule is evaluated on the simfile as it is *now*: editing the version of the same simfile object between
+        # two readings (by key or by attribute, across 0.7 and back) gives what a fresh simfile with that version gives
+        for step, v2 in enumerate(EDIT_VERSIONS + (version,)):
+            if v2 is None:
+                sf.pop("VERSION", None)
+            elif step % 2:
+                sf.version = v2
+            else:
+                sf["VERSION"] = v2
+            want2 = td_expected(ch if uses_chart(sfkind, v2, chartkind, ch) else sf)
+            try:
+                got2 = td_observation(TimingData(sf, ch))
+            except core.WatchdogTimeout:
+                raise
+            except Exception as e:
+                got2 = f"{type(e).__name__}: {e}"
+            if got2 != want2:
+                return [{"clause": "after editing the simfile's version in place, TimingData is not what the rule gives for the new version",
+                         "expected": {"version_now": v2, "version_before": version, **want2}, "observed": got2}], from_chart
     if sfkind == "sm" and not from_chart and got == want:
         # an SM simfile may spell its stops FREEZES (the legacy alias): the same timing data
         sf2 = make_simfile(sfkind, version)
